@@ -3769,3 +3769,16 @@ mod tests {
         assert!(cats.categories.is_empty());
     }
 }
+
+/// Verification hook (add-only): the private `glyph_order` on a lib.plist given as XML text.
+#[cfg(fontc_verif)]
+pub fn verif_glyph_order(
+    lib_plist_xml: &str,
+    glyph_names: &HashSet<GlyphName>,
+) -> Result<GlyphOrder, Error> {
+    let lib = Value::from_reader_xml(lib_plist_xml.as_bytes())
+        .ok()
+        .and_then(Value::into_dictionary)
+        .unwrap_or_default();
+    glyph_order(&lib, glyph_names)
+}
